@@ -125,6 +125,7 @@ POSITIONS = {
     'query_in': None,        # x in q, q = another Query object with the slice
     'query_from': None,      # select(... for x in q)
     'bulk_delete': None,     # q.delete(bulk=True); judged by the rows that are gone (rolled back afterwards)
+    'kwargs_filter': None,   # q.filter(a=None) / q.where(b=None): keyword step on top of the query with the slice
 }
 
 
@@ -146,7 +147,14 @@ def run_position_query(E, rows, position, kind, i, j, t):
             except IndexError:
                 may.add(n)
     with db_session:
-        if position in ('query_in', 'query_from', 'bulk_delete'):
+        if position == 'kwargs_filter':
+            src = 'select(y for y in E if %s == t).filter(a=None).where(b=None)' % expr
+            if kind == 'slice':
+                q = select(y for y in E if y.s[i:j] == t)
+            else:
+                q = select(y for y in E if y.s[i] == t)
+            got = set(o.id for o in q.filter(a=None).where(b=None))     # all rows of this table have a = b = None
+        elif position in ('query_in', 'query_from', 'bulk_delete'):
             from pony.orm import rollback
             if kind == 'slice':
                 q = select(y for y in E if y.s[i:j] == t)
